@@ -38,6 +38,12 @@ func Item[K comparable, V any](d Dict[K, V], key K) V {
 
 func KVs[K comparable, V any](d Dict[K, V]) []frt.Tuple2[K, V] {
 	var res []frt.Tuple2[K, V]
+	if ks, ok := verifOrderedKeys(d.Fdict); ok {
+		for _, k := range ks {
+			res = append(res, frt.NewTuple2(k, d.Fdict[k]))
+		}
+		return res
+	}
 	for k, v := range d.Fdict {
 		res = append(res, frt.NewTuple2(k, v))
 	}
@@ -46,6 +52,9 @@ func KVs[K comparable, V any](d Dict[K, V]) []frt.Tuple2[K, V] {
 
 func Keys[K comparable, V any](d Dict[K, V]) []K {
 	var res []K
+	if ks, ok := verifOrderedKeys(d.Fdict); ok {
+		return append(res, ks...)
+	}
 	for k := range d.Fdict {
 		res = append(res, k)
 	}
@@ -54,6 +63,12 @@ func Keys[K comparable, V any](d Dict[K, V]) []K {
 
 func Values[K comparable, V any](d Dict[K, V]) []V {
 	var res []V
+	if ks, ok := verifOrderedKeys(d.Fdict); ok {
+		for _, k := range ks {
+			res = append(res, d.Fdict[k])
+		}
+		return res
+	}
 	for _, v := range d.Fdict {
 		res = append(res, v)
 	}
